@@ -576,9 +576,11 @@ impl BuiltInFunction {
                     format!("string bottom index `{top}` could not be used to index (usize)")
                 })?;
 
-                let start = top - bottom + 1;
+                if bottom > top {
+                    bail!("string deletion range starts at `{bottom}` but ends at `{top}`")
+                }
 
-                let mut result = String::with_capacity(s.len() - start);
+                let mut result = String::with_capacity(s.len().saturating_sub(top - bottom));
 
                 result.push_str(&s[..bottom]);
                 result.push_str(&s[top..]);
